@@ -38,6 +38,10 @@ const HOSTILE: &[(&str, &str)] = &[
     ("paren-in-middle", "Shop (branch 2) east"),
     ("quote", "Shop \"quoted\" 'single'"),
     ("percent-hash", "50% off #12 | pipe"),
+    ("leading-wide-space", "\u{3000}振込 Yamada"),
+    ("leading-nbsp", "\u{a0}Shop"),
+    ("colon-start", ":-D thanks"),
+    ("colon-space-start", ": see invoice 12"),
     ("benign", "Plain Shop"),
 ];
 
